@@ -10,6 +10,7 @@ import (
 	"math"
 	"strconv"
 	"strings"
+	"sync"
 
 	"github.com/samaritan-proxy/samaritan/verifrt/sched"
 	"github.com/samaritan-proxy/samaritan/verifrt/sim/resp"
@@ -517,4 +518,39 @@ func c10replay(in json.RawMessage) []sched.Failure {
 
 func init() {
 	sched.Register(&sched.Scenario{Name: "C10/codec", Custom: c10run, ReplayCustom: c10replay})
+}
+
+// Race pass for the codec (assumption check for C10): four goroutines, each with its own encoder and decoder as
+// every session and every backend client has, encode and decode values with integers and length headers over
+// the whole range at the same time; nothing may be shared between them (run in the -race binary; a wrong round
+// trip panics).
+func c10codecRace() {
+	var wg sync.WaitGroup
+	for g := 0; g < 4; g++ {
+		g := g
+		wg.Add(1)
+		go func() {
+			defer wg.Done()
+			for i := 0; i < 40; i++ {
+				big := int64(1)<<uint(20+g*10) + int64(i)
+				v := resp.Array(resp.Int(big), resp.Int(-big), resp.Bulk(bytes.Repeat([]byte{byte('a' + g)}, 33000+g*1000+i)), resp.Int(int64(32768+g)), resp.Simple("ok"))
+				raw, err := c10encode(v)
+				if err != nil {
+					sched.RaceFail("encode-error / encoders used concurrently", err.Error())
+					return
+				}
+				d := newDecoder(bytes.NewReader(raw), 4096)
+				got, err := d.Decode()
+				if err != nil || !resp.Equal(toSim(got), v) {
+					sched.RaceFail("decoded-value-differs / encoders used concurrently", fmt.Sprintf("goroutine %d: a value encoded and decoded with its private encoder and decoder came back different (err %v)", g, err))
+					return
+				}
+			}
+		}()
+	}
+	wg.Wait()
+}
+
+func init() {
+	sched.Register(&sched.Scenario{Name: "C10/codec-race", Race: c10codecRace})
 }
